@@ -37,47 +37,55 @@ def ts_transitions(ctx, prog):
     ctx.rule(R, "stores to InternalObserver.state form exactly the documented automaton")
     ws = [a for a in writes_of(prog, F_STATE) if a.kind in ("set", "replace")]
     seen = set()
+    by_fn = {}
     for a in ws:
-        F = a.fn
+        by_fn.setdefault(a.fn.path, []).append(a)
+    for fpath, sites in sorted(by_fn.items()):
+        F = prog.fns[fpath]
         du = DefUse(F)
-        c = F.cfg()
-        e = expr(F, a.site.args[1], du)
-        dst = e[1].split("::")[1] if e[0] == "agg" and e[1].startswith("ObserverState::") else None
-        srcs = None
-        for s, can in c.controlling_switches(a.bb):
-            se = expr(F, F.blocks[s]["term"]["on"], du)
-            if se[0] == "discr" and (dtab.is_field_get("state")(se[1]) or
-                                     (se[1][0] == "call" and se[1][1].endswith("::get") and
-                                      mentions(se[1], lambda x: x[0] == "call" and x[1].endswith("ErasedObserver::state")))):
-                vals = set()
-                listed = {v for v, _ in F.blocks[s]["term"]["targets"]}
-                for x in can:
-                    for v in c.edge_values(s, x):
-                        if v == "otherwise":
-                            vals |= {d for d in dtab.enum_domain(prog, OS) if d not in listed}
-                        else:
-                            vals.add(v)
-                srcs = {prog.variant_by_discr(OS, v) for v in vals}
-        ctx.site(R, F, "bb%d state: %s -> %s" % (a.bb, sorted(srcs) if srcs else "*", dst))
-        if dst is None:
-            ctx.fail(R, "store:" + F.short, "observer state set to a computed value %s" % show(e), fn=F, span=a.span,
-                     kind="anchor")
-            continue
-        if srcs is None:
-            # unlink_disallowed_observers: the source comes from the disallowed_observers queue, whose only
-            # producer stores Disallowed (checked below)
-            if F.path == q.STATE + "unlink_disallowed_observers":
-                srcs = {"Disallowed"}
-            else:
-                srcs = {"*"}
-        for src in sorted(srcs):
+        site_ids = {id(a.site): a for a in sites}
+
+        def dval(F_, t, du_):
+            e = expr(F_, t.args[1], du_)
+            return e[1].split("::")[1] if e[0] == "agg" and e[1].startswith("ObserverState::") else "?" + show(e)
+        sym = dtab.Sym("state", lambda e: dtab.is_field_get("state")(e) or (
+            e[0] == "call" and e[1].endswith("::get") and mentions(e, lambda x: x[0] == "call" and x[1].endswith("ErasedObserver::state"))),
+            dtab.enum_domain(prog, OS))
+        live = F.cfg().reachable_from_entry()
+        reads_state = any(b["term"]["k"] == "switch" and b["id"] in live and dtab._switch_symbol(F, b["id"], [sym], du, {})
+                          for b in F.blocks)
+        acts = [dtab.Action("set", lambda t: id(t) in site_ids, dval)]
+        if reads_state:
+            tb = dtab.table(F, [sym], acts, record_returns=False, path_sensitive=True)
+            edges = set()
+            for (src,), res in tb.items():
+                for r in res:
+                    for a_ in r:
+                        if a_[0] == "set":
+                            edges.add((src, a_[1]))
+        else:
+            # the source state is not inspected here: unlink_disallowed_observers drains a queue whose only
+            # producer stores Disallowed first (checked below); Observer::drop runs when the State is gone
+            srcs = ["Disallowed"] if fpath == q.STATE + "unlink_disallowed_observers" else ["*"]
+            edges = set()
+            for a in sites:
+                edges.update((s_, dval(F, a.site, du)) for s_ in srcs)
+        for a in sites:
+            ctx.site(R, F, "bb%d state store" % a.bb)
+        for src, dst in sorted(edges):
+            ctx.site(R, F, "transition %s -> %s" % (src, dst))
+            if dst.startswith("?"):
+                ctx.fail(R, "store:" + F.short, "observer state set to a computed value %s" % dst, fn=F, kind="anchor")
+                continue
+            if src == dst:
+                continue
             edge = (F.path, src, dst)
             if edge in ALLOWED_EDGES:
                 seen.add(edge)
                 ctx.ok(R, "edge:%s:%s->%s" % (F.short, src, dst))
             else:
                 ctx.fail(R, "edge:%s:%s->%s" % (F.short, src, dst), "undocumented observer transition %s -> %s in %s"
-                         % (src, dst, F.short), fn=F, span=a.span)
+                         % (src, dst, F.short), fn=F, span=sites[0].span)
     for e in sorted(ALLOWED_EDGES - seen):
         ctx.fail(R, "missing-edge:%s->%s" % (e[1], e[2]), "documented transition %s -> %s (in %s) has no site" %
                  (e[1], e[2], q.short_path(e[0])), fn=None, kind="anchor")
